@@ -58,6 +58,13 @@ func VerifParseHeader(protoPackage string, infos []VerifTypeInfo, nameRow, typeR
 		nameRowData: nameRow,
 		typeRowData: typeRow,
 	}
+	for cursor := 0; cursor < len(header.nameRowData); cursor++ {
+		if nameCell := header.getNameCell(cursor); nameCell != "" {
+			if err := header.checkNameConflicts(nameCell, cursor); err != nil {
+				return nil, cursor, err
+			}
+		}
+	}
 	var parsed bool
 	for cursor := 0; cursor < len(header.nameRowData); cursor++ {
 		field := &internalpb.Field{}
